@@ -14,6 +14,9 @@ from collections import Counter, defaultdict
 
 from .. import runner
 
+# header comments end in non-ASCII text: from there on byte offsets and character offsets differ (Latin-1 supplement, Thai, CJK, astral plane)
+NON_ASCII = " \u2014 g\u00e9n\u00e9r\u00e9 \u0e2a\u0e23\u0e49\u0e32\u0e07 \u751f\u6210 \U0001f600"
+
 MSG = re.compile(r"^Duplicate code \((\d+) lines?, (\d+) occurrences?\)\. Also found in: (.*)$")
 LOC = re.compile(r"^(.*):(\d+)-(\d+)$")
 
@@ -79,10 +82,10 @@ def gen_project(rng, idx, W, min_occ):
     for fi, fb in enumerate(fbs):
         py = fb.lang == "py"
         if py:
-            fb.add('"""Generated module %d."""' % fresh())
+            fb.add('"""Generated module %d%s."""' % (fresh(), NON_ASCII))
             fb.add("import os")
         else:
-            fb.add("// Generated module %d" % fresh())
+            fb.add("// Generated module %d%s" % (fresh(), NON_ASCII))
             if fb.lang == "ts" and rng.random() < 0.5:
                 # a multi-line type declaration (its members are declarations, not statements; every member name is unique): whatever a file
                 # declares must not influence what is found in other files
@@ -91,6 +94,10 @@ def gen_project(rng, idx, W, min_occ):
                 for _ in range(rng.randint(2, 14)):
                     fb.add("  field_%d: number;" % fresh())
                 fb.add("}")
+        if rng.random() < 0.3:
+            # characters that str.splitlines() takes for line breaks and no parser does: a page-break line, separators inside a comment
+            fb.add("\x0c")
+            fb.add("%s section \x0b\x1c\x85\u2028 break" % ("#" if py else "//"))
         occs = per_file.get(fi, [])
         rng.shuffle(occs)
         nfunc = max(1, len(occs)) + rng.randint(0, 1)
